@@ -20,7 +20,13 @@ enum Ident {
     Alice,
     Bob,
     Root,
+    /// elevated caller whose destination never answers the TCP handshake (the proxy's upstream connect stays
+    /// pending): only open and close are explored on such a connection
+    Slow,
 }
+
+/// a listening socket whose accept queue is full and never drained: SYNs to it go unanswered
+const BLACKHOLE: &str = "168.63.129.16:8099";
 
 #[derive(Clone, Copy, Debug, PartialEq, Eq, Hash)]
 enum Op {
@@ -53,7 +59,9 @@ impl<'a> Ctx<'a> {
             Ident::None => None,
             Ident::Alice => Some(AuditRec::to(IMDS, 1001, self.alice_pid, false)),
             Ident::Bob => Some(AuditRec::to(IMDS, 1002, self.bob_pid, false)),
-            Ident::Root => Some(AuditRec::to(WS, 0, self.root_pid, true)),
+            // the same process id as alice, another user: a daemon that drops privileges keeps its pid
+            Ident::Root => Some(AuditRec::to(WS, 0, self.alice_pid, true)),
+            Ident::Slow => Some(AuditRec::to(BLACKHOLE, 0, self.root_pid, true)),
         }
     }
     /// a full request/response on a separate attributed connection: when it has been answered,
@@ -138,6 +146,7 @@ fn run_history(cx: &Ctx, hist: &[Op]) -> (Vec<StepObs>, String) {
                     Ident::Alice => (200, Some(2), "{ \"isRoot\": \"false\"}"),
                     Ident::Bob => (403, None, ""),
                     Ident::Root => (200, Some(0), "{ \"isRoot\": \"true\"}"),
+                    Ident::Slow => unreachable!("no request is explored on a connection whose upstream never connects"),
                 };
                 let ok = st == Ok(want_status)
                     && match want_host {
@@ -187,11 +196,12 @@ fn enabled(model: &Model, thorough: bool) -> Vec<Op> {
     for p in 0..2 {
         match model[p] {
             None => {
-                let ids: &[Ident] = if thorough { &[Ident::None, Ident::Alice, Ident::Bob, Ident::Root] } else { &[Ident::None, Ident::Alice, Ident::Root] };
+                let ids: &[Ident] = if thorough { &[Ident::None, Ident::Alice, Ident::Bob, Ident::Root, Ident::Slow] } else { &[Ident::None, Ident::Alice, Ident::Root, Ident::Slow] };
                 for i in ids {
                     v.push(Op::Open(p, *i));
                 }
             }
+            Some(Ident::Slow) => v.push(Op::Close(p)),
             Some(_) => {
                 v.push(Op::Request(p));
                 v.push(Op::Close(p));
@@ -224,6 +234,28 @@ fn main() {
         bob_pid: w.spawn_proc("/usr/bin/vt-curl", &["100001"], Some(1002)),
         root_pid: w.spawn_proc("/usr/bin/vt-waagent", &["100000"], None),
     };
+    // the black hole: backlog 0, accept queue filled, never accepted (and few SYN retries, so that the proxy's
+    // pending upstream connects of closed client connections go away in seconds)
+    let _ = std::fs::write("/proc/sys/net/ipv4/tcp_syn_retries", "2");
+    let hole = std::net::TcpListener::bind(BLACKHOLE).unwrap_or_else(|e| vcommon::result::machinery(&format!("bind {BLACKHOLE}: {e}")));
+    unsafe {
+        use std::os::fd::AsRawFd;
+        libc::listen(hole.as_raw_fd(), 0);
+    }
+    let mut fillers = Vec::new();
+    let mut saturated = false;
+    for _ in 0..8 {
+        match std::net::TcpStream::connect_timeout(&BLACKHOLE.parse().unwrap(), Duration::from_millis(400)) {
+            Ok(c) => fillers.push(c),
+            Err(_) => {
+                saturated = true;
+                break;
+            }
+        }
+    }
+    if !saturated {
+        vcommon::result::machinery("the black-hole listener still completes handshakes");
+    }
     w.set_rules(IMDS, Policy::simple("enforce-deny-grants-alice", "enforce", false).with(&["/a"], &[(0, "alice")]).to_item());
 
     if let Ok(path) = std::env::var("VERIF_REPLAY") {
@@ -239,6 +271,7 @@ fn main() {
                         "None" => Ident::None,
                         "Alice" => Ident::Alice,
                         "Bob" => Ident::Bob,
+                        "Slow" => Ident::Slow,
                         _ => Ident::Root,
                     };
                     Op::Open(port(&o["open"]), id)
@@ -281,9 +314,17 @@ fn main() {
     let mut executed = 0u64;
     let mut max_depth = 0usize;
     let mut outcomes: BTreeMap<String, u64> = BTreeMap::new();
+    let bfs_start = Instant::now();
+    let mut stopped_early = false;
     while let Some(hist) = frontier.pop_front() {
         if hist.len() >= depth {
             continue;
+        }
+        // a subject that violates the property may answer every step only after a time-out: once something
+        // has been found and two minutes are spent, report that instead of running into the driver's time limit
+        if res.n_violations() > 0 && bfs_start.elapsed() > Duration::from_secs(120) {
+            stopped_early = true;
+            break;
         }
         let model = model_after(&hist);
         for op in enabled(&model, thorough) {
@@ -443,8 +484,9 @@ fn main() {
     res.cov("step_outcomes", json!(outcomes));
     res.cov("concurrent_send_orders", orders);
     res.cov("contention_family_connections_sampled", n_cont as u64);
-    res.cov("exhaustive", true);
-    res.cov("rule", format!("BFS over histories of open(port in 2 ports, record in {{none, alice->IMDS, {}root->WireServer}}) / request / close (RST close, immediate port reuse) to depth {depth}, deduplicated on (reference state, kernel audit-map content, served-a-request flags); every history is executed on the real proxy from a clean state; + 3 attributed connections x 2 pipelined requests in {} send orders; + a SAMPLED family in which a contender thread keeps the BpfObject mutex busy while {n_cont} attributed connections are accepted", if thorough { "bob->IMDS, " } else { "" }, orders));
+    res.cov("exhaustive", !stopped_early);
+    res.cov("stopped_early_after_violations", stopped_early);
+    res.cov("rule", format!("BFS over histories of open(port in 2 ports, record in {{none, alice->IMDS, {}root->WireServer with alice's process id, root->a destination that never completes the TCP handshake (open/close only)}}) / request / close (RST close, immediate port reuse) to depth {depth}, deduplicated on (reference state, kernel audit-map content, served-a-request flags); every history is executed on the real proxy from a clean state; + 3 attributed connections x 2 pipelined requests in {} send orders; + a SAMPLED family in which a contender thread keeps the BpfObject mutex busy while {n_cont} attributed connections are accepted", if thorough { "bob->IMDS, " } else { "" }, orders));
     res.assume("single-threaded subject runtime: a sentinel round trip after each open orders the harness after the accept-time lookup; server-side task interleavings beyond that are not enumerated");
     res.assume("the lock-contention family is sampling (the std mutex cannot be scheduled), labelled as such");
     std::process::exit(res.finish());
